@@ -111,6 +111,14 @@ def gen_c17(rng, oracle, index, tier="quick"):
             g.new_model(alias_of=rng.choice(g.order))
         else:
             g.new_model(want_cfg=rng.random() < 0.6)
+    twins = []
+    if rng.random() < 0.35:
+        # a near-twin (same ids and shape, leaf bounds with equal hash sum / default dropped): both are packed
+        # and unpacked in the same process – interning or caching by weak identity would mix them up
+        t0 = rng.choice(g.order)
+        t1 = g.twin(t0)
+        if t1:
+            twins = [t0, t1]
     for _ in range(rng.randint(0, 8)):
         if g.step_iterators():
             continue
@@ -125,6 +133,9 @@ def gen_c17(rng, oracle, index, tier="quick"):
     objs = [h for h in g.order if g.handles[h]["kind"] in ("prop", "cfg")]
     for h in rng.sample(objs, min(len(objs), rng.choice([1, 1, 2]))):
         targets.append((h, "prop"))
+    for h in twins:
+        if (h, "prop") not in targets:
+            targets.append((h, "prop"))
     cfgs = [h for h in g.order if g.handles[h]["kind"] == "cfg"]
     if cfgs and rng.random() < 0.6:
         c = rng.choice(cfgs)
